@@ -85,7 +85,8 @@ def setup(rec, reach):
     B = common.BpSeq
     core.wrap(B, "all_dot_brackets", rec, post=_post, pre=_pre_self, label="BpSeq.all_dot_brackets")
     for name in ("all_dot_brackets", "_BpSeq__make_dot_bracket"):
-        reach.add(B.__dict__[name], f"BpSeq.{name.replace('_BpSeq', '')}")
+        if name in B.__dict__:  # private helpers may be refactored away: the reach map then simply has no entry for them
+            reach.add(B.__dict__[name], f"BpSeq.{name.replace('_BpSeq', '')}")
 
 
 def cases(shard, nshards, seed, tier):
